@@ -1,17 +1,22 @@
 /-
   Props/C01 — property theorems for "Consensus agreement: no two correct validators finalize
-  different blocks".  Helper lemmas are in Proofs/C01Abs.lean (abstract soup) and
-  Proofs/C01Val.lean (transcribed single-validator machine).
+  different blocks".  Helper lemmas are in Proofs/C01Abs.lean (abstract soup),
+  Proofs/C01Val/C01G1/C01G2/C01G3/C01G3Step.lean (transcribed single-validator machine) and
+  Proofs/C01Sys.lean (composition).
 
   Layering (DESIGN §6 C01): L-abs = message soup (Model/C01Abs), L-val = one validator transcribed
-  from consensus.go (Model/C01).  `agreement_abs` is the full, unbounded safety argument over
-  L-abs under the per-validator guarantees G0–G3; what is proved about L-val and what is only
-  differentially tested is listed in lean/registry/C01.json.
+  from consensus.go (Model/C01), L-sys = n machines + soup (Proofs/C01Sys).  `agreement_abs` is the
+  full, unbounded safety argument over L-abs under the per-validator guarantees G0–G3; `vstep_G0..G3`
+  prove those guarantees for L-val on every crash-free event sequence (four mutual inductions over the
+  13 enterX/handleX functions: Proofs/C01G1, C01G2, C01G3, C01G3Step); `agreement_nocrash` composes
+  them.  With crash/restart only G0/G1 (C02) and `lock_rule_after_restart_partial` are proved; the
+  full `agreement` fails for the unchanged code (F1 witness at the end of this file).
 -/
 import Goloop.Proofs.C01Abs
 import Goloop.Proofs.C01G1
 import Goloop.Proofs.C01G2
 import Goloop.Proofs.C02Restart
+import Goloop.Proofs.C01Sys
 namespace Goloop.C01.Props
 open Goloop.C01
 
@@ -139,6 +144,168 @@ theorem vstep_G2 (n me : Nat) (evs : List Event) (hn : ∀ e ∈ evs, e.noCrash)
 example : (∀ e ∈ ([.proposal 1 1 0 9 (-1), .blockPart 1 9, .async, .vote ⟨1,1,.prevote,0,some 9⟩,
     .timeout 3] : List Event), e.noCrash) := by
   intro e he; simp at he; rcases he with rfl | rfl | rfl | rfl | rfl <;> simp [Event.noCrash]
+
+/-- **G3 for L-val (no crash): the lock rule, with exact timing.**  For every crash-free event sequence:
+    let `pre ++ [w] ++ post` be the messages the machine has signed, in signing order, `w` a prevote.  If
+    among the messages signed BEFORE `w` (`pre`) there is a non-nil precommit `v` = (h, r, b) of the same
+    height with `r < w.round`, and `w` is not a prevote for `b` (nil included), then the machine knew,
+    before signing `w`, more than 2/3 of the validator indices `i < n` (distinct validators, Go
+    threshold) with a prevote (i, h, r'', y) for one round `r''` with `r < r'' ≤ w.round` and one value
+    `y ≠ b` (nil included) — each delivered to it by a `vote` event of this sequence or signed by
+    itself before `w`.  This is exactly hypothesis `g3` of `agreement_abs`.  (The code's unlock
+    condition is `lockedRound < msg.Round` on a +2/3 prevote decision for something else; the proof
+    shows lockedRound ≥ r while the precommit (r, b) is not yet covered by such a polka.) -/
+theorem vstep_G3 (n me : Nat) (evs : List Event) (hn : ∀ e ∈ evs, e.noCrash)
+    (pre post : List Msg) (w v : VoteRec) (b : Blk)
+    (hs : sentOf (run (start { n := n, me := me }) evs).eff = pre ++ Msg.vote w :: post)
+    (hwt : w.typ = .prevote) (hv : Msg.vote v ∈ pre) (hvt : v.typ = .precommit) (hvb : v.val = some b)
+    (hh : v.height = w.height) (hr : v.round < w.round) (hne : w.val ≠ some b) :
+    ∃ r'' y, v.round < r'' ∧ r'' ≤ w.round ∧ y ≠ some b ∧
+      quorumKnown (deliveredVotes evs) n pre w.height .prevote r'' y := by
+  have a := run_a3 (L := deliveredVotes evs) (base := []) (start { n := n, me := me }) evs hn
+    (mem_deliveredVotes evs) (a3_start_fresh n me)
+  have hnn : (run (start { n := n, me := me }) evs).n = n :=
+    (run_inv (me := me) (n := n) { n := n, me := me } (.start :: evs) (inv_init me n)).hn
+  have := a.h3.g3 pre w post hs hwt v b hv hvt hvb hh hr hne
+  rw [hnn] at this
+  exact this
+
+/-- G2 for L-val with exact timing: the polka was known before the precommit was signed -/
+theorem vstep_G2_before (n me : Nat) (evs : List Event) (hn : ∀ e ∈ evs, e.noCrash)
+    (pre post : List Msg) (v : VoteRec) (b : Blk)
+    (hs : sentOf (run (start { n := n, me := me }) evs).eff = pre ++ Msg.vote v :: post)
+    (ht : v.typ = .precommit) (hb : v.val = some b) :
+    quorumKnown (deliveredVotes evs) n pre v.height .prevote v.round (some b) := by
+  have a := run_a3 (L := deliveredVotes evs) (base := []) (start { n := n, me := me }) evs hn
+    (mem_deliveredVotes evs) (a3_start_fresh n me)
+  have hnn : (run (start { n := n, me := me }) evs).n = n :=
+    (run_inv (me := me) (n := n) { n := n, me := me } (.start :: evs) (inv_init me n)).hn
+  have := a.h3.g2 pre v post b hs ht hb
+  rw [hnn] at this
+  exact this
+
+/-- **Finalize needs a commit quorum (L-val, no crash).**  Every `finalize h b` effect of a crash-free
+    run was emitted with more than 2/3 of the validator indices having a precommit (i, h, r, b), for ONE
+    round r, known to the machine (delivered by a `vote` event or signed by itself). -/
+theorem vstep_finalize_has_commit_quorum (n me : Nat) (evs : List Event) (hn : ∀ e ∈ evs, e.noCrash)
+    (h : Nat) (b : Blk) (hf : (h, b) ∈ finalizedOf (run (start { n := n, me := me }) evs).eff) :
+    ∃ r, quorumKnown (deliveredVotes evs) n (sentOf (run (start { n := n, me := me }) evs).eff) h
+      .precommit r (some b) := by
+  have a := run_a3 (L := deliveredVotes evs) (base := []) (start { n := n, me := me }) evs hn
+    (mem_deliveredVotes evs) (a3_start_fresh n me)
+  have hnn : (run (start { n := n, me := me }) evs).n = n :=
+    (run_inv (me := me) (n := n) { n := n, me := me } (.start :: evs) (inv_init me n)).hn
+  have := a.h3.fin h b hf
+  rw [hnn] at this
+  exact this
+
+/-! non-vacuity of `vstep_G3`: validator 0 of 4 precommits 9 in round 0, moves to round 1 on +2/3 nil
+    precommits, sees +2/3 prevotes for 10 in round 1 (unlock) and prevotes nil in round 1 -/
+def g3Events : List Event := [
+  .proposal 1 1 0 9 (-1), .blockPart 1 9, .async,
+  .vote ⟨1,1,.prevote,0,some 9⟩, .vote ⟨2,1,.prevote,0,some 9⟩,
+  .vote ⟨1,1,.precommit,0,none⟩, .vote ⟨2,1,.precommit,0,none⟩, .timeout 7,
+  .vote ⟨1,1,.prevote,1,some 10⟩, .vote ⟨2,1,.prevote,1,some 10⟩, .vote ⟨3,1,.prevote,1,some 10⟩]
+
+example : (∀ e ∈ g3Events, e.noCrash) ∧
+    sentOf (run (start { n := 4, me := 0 }) g3Events).eff =
+      [.vote ⟨0,1,.prevote,0,some 9⟩, .vote ⟨0,1,.precommit,0,some 9⟩] ++
+        Msg.vote ⟨0,1,.prevote,1,none⟩ :: [.vote ⟨0,1,.precommit,1,none⟩] := by
+  refine ⟨?_, by decide +kernel⟩
+  intro e he
+  simp only [g3Events, List.mem_cons, List.not_mem_nil, or_false] at he
+  rcases he with rfl | rfl | rfl | rfl | rfl | rfl | rfl | rfl | rfl | rfl | rfl <;> simp [Event.noCrash]
+
+/-! ### L-sys: n machines + the soup, no crash -/
+
+/-- the soup of every reachable system state, restricted to any one height, satisfies the
+    per-validator guarantees G0–G3 that `agreement_abs` needs -/
+theorem reachable_soup_guarantees (n : Nat) (byz : Nat → Bool) (sys : Sys) (hr : Reach n byz sys) (h : Nat) :
+    Guarantees n byz (projH h sys.soup) :=
+  guarantees_of_sysInv n byz sys (reach_sysInv n byz sys hr) h
+
+/-- **Agreement without crashes (C01 for crash-free executions), unbounded.**  `n` validators, any set
+    `byz` of Byzantine ones with `3·|byz ∩ [0,n)| < n`.  Every validator index `i` with `byz i = false`
+    runs the machine transcribed from consensus.go (`start {n, me := i}`).  `Reach n byz sys`: `sys` is
+    reachable by any finite interleaving of (a) a Byzantine validator signing ANY vote (any height,
+    round, type, value, any number of conflicting ones) and (b) a correct validator performing ANY
+    crash-free event — proposal or block part with arbitrary content (not even required to be signed),
+    timeout, BlockManager callback, or delivery of a vote that is in the soup (= has been signed by
+    somebody before; signatures are unforgeable) — where everything it signs during the event is added
+    to the soup.  Loss, delay, duplication, reordering are all such interleavings.  Then any two
+    Finalize effects of correct validators (the same or different ones) for the same height name the
+    same block.  No bound on n, heights, rounds, or the length of the execution. -/
+theorem agreement_nocrash (n : Nat) (byz : Nat → Bool) (hb : fewByz n byz) (sys : Sys)
+    (hr : Reach n byz sys) (i j : Nat) (hi : byz i = false) (hj : byz j = false) (h : Nat) (b b' : Blk)
+    (h1 : (h, b) ∈ finalizedOf (sys.st i).eff) (h2 : (h, b') ∈ finalizedOf (sys.st j).eff) : b = b' :=
+  Goloop.C01.agreement_nocrash n byz hb sys hr i j hi hj h b b' h1 h2
+
+/-! non-vacuity of `agreement_nocrash`: 4 validators, validator 3 Byzantine (it equivocates in round 0);
+    validator 1 proposes 1201, validators 0, 1, 2 exchange prevotes and precommits through the soup;
+    validators 0 and 1 finalize block 1201 at height 1 -/
+def exPv (i : Nat) : VoteRec := ⟨i, 1, .prevote, 0, some 1201⟩
+def exPc (i : Nat) : VoteRec := ⟨i, 1, .precommit, 0, some 1201⟩
+def exScript : List Step := [
+  .ev 1 .async,
+  .ev 0 (.proposal 1 1 0 1201 (-1)), .ev 0 (.blockPart 1 1201), .ev 0 .async,
+  .ev 2 (.proposal 1 1 0 1201 (-1)), .ev 2 (.blockPart 1 1201), .ev 2 .async,
+  .byz ⟨3, 1, .prevote, 0, some 77⟩, .byz ⟨3, 1, .prevote, 0, none⟩,
+  .ev 0 (.vote (exPv 1)), .ev 0 (.vote (exPv 2)),
+  .ev 1 (.vote (exPv 0)), .ev 1 (.vote (exPv 2)),
+  .ev 2 (.vote (exPv 0)), .ev 2 (.vote (exPv 1)),
+  .ev 0 (.vote (exPc 1)), .ev 0 (.vote (exPc 2)),
+  .ev 1 (.vote (exPc 0)), .ev 1 (.vote (exPc 2))]
+
+theorem exScript_reach : Reach 4 (fun i => i == 3) ((sys0 4).run exScript) :=
+  reach_run 4 (fun i => i == 3) (sys0 4) exScript Reach.init (by decide +kernel)
+
+example : fewByz 4 (fun i => i == 3) ∧
+    (1, 1201) ∈ finalizedOf (((sys0 4).run exScript).st 0).eff ∧
+    (1, 1201) ∈ finalizedOf (((sys0 4).run exScript).st 1).eff := by
+  decide +kernel
+
+/-! ### restart (partial)
+
+    Full statement (`agreement`, DESIGN §6 C01) that is NOT proved — and cannot be for the unchanged code,
+    see the F1 witness below:
+      for every execution of L-sys in which correct validators may also `crash cut k` at any effect
+      boundary and `start` again on their WALs, two Finalize effects of correct validators for one
+      height name the same block.
+    What is proved instead (`lock_rule_after_restart_partial`): the restart problem is confined to the
+    three WAL replay functions.  IF the replay restores a sound state (`RestartSound`: every vote put
+    back into the vote sets is a known vote, and RestoreLockSound — every own non-nil precommit (r, b)
+    of the height is covered by the restored lock, lockedRound ≥ r, or by a known unlocking polka),
+    THEN the Start dispatch and every later crash-free event keep G0–G3 and the Finalize rule.
+    Missing for `agreement_partial`: (1) RestartSound's vote-set half from the code (own votes written
+    to the round WAL but never sent are put back by applyRoundWAL; needs "signed" = "durably written");
+    (2) closure of the trace facts under the crash cut (they are stated prefix-wise, the Finalize rule
+    is not yet); (3) the composition with crash steps in `Reach`.  G0/G1 with crash/restart anywhere
+    are proved: `Goloop.C02.Props.no_equivocation`. -/
+
+/-- **Lock rule after a sound restart (partial).**  `s` is any stopped machine state reached by any
+    history with crashes (`Inv`: C02's global invariant).  If the WAL replay restores a sound state
+    (`RestartSound`, which contains RestoreLockSound), then after `start` and any crash-free continuation
+    the lock rule G3 holds for every prevote in the whole trace — including prevotes signed after the
+    restart against precommits signed before the crash. -/
+theorem lock_rule_after_restart_partial (me n : Nat) (L : List VoteRec) (s : S) (hi : Inv me n s)
+    (hns : s.started = false) (hR : RestartSound L s)
+    (evs : List Event) (hn : ∀ e ∈ evs, e.noCrash) (hl : ∀ m, Event.vote m ∈ evs → m ∈ L)
+    (pre post : List Msg) (w v : VoteRec) (b : Blk)
+    (hs : sentOf (run (start s) evs).eff = pre ++ Msg.vote w :: post)
+    (hwt : w.typ = .prevote) (hv : Msg.vote v ∈ pre) (hvt : v.typ = .precommit) (hvb : v.val = some b)
+    (hh : v.height = w.height) (hr : v.round < w.round) (hne : w.val ≠ some b) :
+    ∃ r'' y, v.round < r'' ∧ r'' ≤ w.round ∧ y ≠ some b ∧
+      quorumKnown L n pre w.height .prevote r'' y := by
+  have a := run_a3 (L := L) (base := []) (start s) evs hn hl (a3_start_of_replayed s hi hns hR)
+  have hi' : Inv me n (run (start s) evs) := run_inv s (.start :: evs) hi
+  have := a.h3.g3 pre w post hs hwt v b hv hvt hvb hh hr hne
+  rw [hi'.hn] at this
+  exact this
+
+/-- non-vacuity: the hypotheses hold for the first start (empty WALs) -/
+example : Inv 0 4 ({ n := 4, me := 0 } : S) ∧ ({ n := 4, me := 0 } : S).started = false ∧
+    RestartSound [] ({ n := 4, me := 0 } : S) :=
+  ⟨inv_init 0 4, rfl, h2_of_nosent _ rfl rfl, h3_init _ rfl rfl rfl (Or.inr (by decide))⟩
 
 /-! ### F1 witness: the transcribed machine (and, replayed by the harness, the real engine) loses the
     raised lock round on restart.
